@@ -26,12 +26,13 @@ extern "C" unsigned long vp_queue_objsize() { return sizeof(fnode_t::input_queue
 static qnode_t& Q() { return vp_q_mem.x; }
 static fnode_t& F() { return vp_f_mem.x; }
 extern "C" {
-void vp_init(unsigned long concurrency) {
+void vp_make_edge() { make_edge(Q(), F()); }
+void vp_init(unsigned long concurrency, unsigned with_edge) {
   vp_graph_init();
   new (&vp_q_mem.x) qnode_t(vp_graph());
   new (&vp_f_mem.x) fnode_t(vp_graph(), concurrency, vp_body_t());
   new (&vp_succ(0)) vp_recv(); vp_succ(0).id = 0; F().register_successor(vp_succ(0));
-  make_edge(Q(), F());
+  if (with_edge) make_edge(Q(), F());
 }
 unsigned vp_put(int v) { return Q().try_put(v); }
 unsigned long vp_conc() { return F().my_concurrency; }
@@ -54,4 +55,25 @@ void vp_init_sample() {
   vp_body_vptr = *reinterpret_cast<void**>(&vp_sample_body.x);
 }
 unsigned vp_task_is_body(void* t) { return *reinterpret_cast<void**>(t) == vp_body_vptr; }
+}
+
+extern "C" { void vp_emit(unsigned long v); unsigned vp_st_bag(); void vp_st_push(void*); void* vp_st_take(unsigned newest); void vp_st_reset(unsigned avail, unsigned accmask, unsigned flipmask); void vp_st_arena(unsigned); }
+static void st_run(unsigned newest, unsigned cancel) {
+  if (!vp_st_bag()) return;
+  d1::task* t = static_cast<d1::task*>(vp_st_take(newest));
+  vp_st_arena(1); void* b = vp_run_task(t, cancel); vp_st_arena(0);
+  if (b) vp_st_push(b);
+}
+static void st_state() { vp_emit(vp_conc()); vp_emit(vp_qsize()); vp_emit(vp_graph_refs()); vp_emit(vp_q_nsucc()); vp_emit(vp_f_npred()); vp_emit(vp_q_fwd_busy()); vp_emit(vp_f_fwd_busy()); vp_emit(vp_st_bag()); }
+extern "C" void vp_selftest() {
+  for (unsigned conc = 0; conc < 3; conc++) {
+    vp_st_reset(0, 0x2d, 0); vp_init(conc, 1); vp_refv_init(0);
+    st_run(0, 0); st_state();
+    for (int i = 0; i < 3; i++) { vp_emit(vp_put(10 + i)); st_state(); }
+    for (int i = 0; i < 3; i++) { st_run(i & 1, 0); st_state(); }
+    for (int i = 0; i < 3; i++) { vp_emit(vp_put(20 + i)); st_run(1, 0); st_state(); }
+    for (int i = 0; i < 12; i++) st_run(0, 0);
+    st_state();
+    vp_emit(vp_put(30)); vp_emit(vp_put(31)); st_run(0, 0); st_run(0, 1); st_run(0, 1); st_run(0, 1); st_state();
+  }
 }
